@@ -11,7 +11,8 @@ Proved in full: Linear (`linear_exact`, `linear_nearestK_dists`, `linear_size_li
 
 GNAT is `_partial`: the soundness of every pruning test of the query code is proved for every
 metric on a linearly ordered commutative ring under the executable invariant `Node.inv`
-(`gnat_sibling_prune_sound_partial`, `gnat_radius_prune_sound_partial`, `gnat_inv_descends_partial`).
+(`gnat_sibling_prune_sound_partial`, `gnat_radius_prune_sound_partial`, `gnat_inv_descends_partial`),
+and the leaf scan of the radius query is exact (`gnat_leaf_scanR_exact_partial`).
 Not proved (checked on every dump of the real tree by checks/c10.py instead, and said so there):
 
   theorem nearestK_exact : Node.inv dist g.removed t = true → IsMetric dist →
@@ -147,6 +148,20 @@ theorem gnat_radius_prune_sound_partial {dist : α → α → D} (hm : IsMetric 
   · exact dequeue_skip_sound hm hl hc q bound h
 
 end Gnat
+
+/-- **Leaf level of the radius query is exact.**  The `data_` scan of `Node::nearestR` adds to the
+answer queue exactly the non-removed elements of the leaf that lie within the radius — each once,
+never one marked removed — and keeps the queue ordered (so the final answer is sorted). -/
+theorem gnat_leaf_scanR_exact_partial [LinearOrder D] (dist : α → α → D) (removed : List Nat) (q : α) (r : D)
+    (data : List (Elem α)) (nbh : Nbh α D) (hs : nbh.Pairwise (fun a b => b.1 ≤ a.1)) :
+    (scanDataR dist removed q r data nbh).Perm
+        ((((liveOf removed data).filter (fun e => decide (dist q e.val ≤ r))).map
+            (fun e => (dist q e.val, e))) ++ nbh) ∧
+      (scanDataR dist removed q r data nbh).Pairwise (fun a b => b.1 ≤ a.1) :=
+  ⟨scanDataR_perm dist removed q r data nbh, scanDataR_sorted dist removed q r data nbh hs⟩
+
+example : (scanDataR (fun (a b : Int) => |a - b|) [1] 5 2 [⟨0, 4⟩, ⟨1, 5⟩, ⟨2, 9⟩, ⟨3, 7⟩] []).map (·.2.id) = [3, 0] := by
+  decide
 
 /-! non-vacuity: a dump of a real tree (corpus/C10/smoke-gnat.txt, L1 metric on ℤ²) satisfies the
 invariant, the metric laws hold for |a-b| on ℤ, and the pruning tests do fire. -/
